@@ -74,6 +74,17 @@ CLAIMS.update({
         note="a/e-acute/emoji stand for the 1/2/4-byte UTF-8 classes; formatters are outside equality; cfg'd holes and the span-name literal not covered; macro token syntax lives in the generator (lib/checks/c16.py)"),
 })
 
+CLAIMS.update({
+    "C01": dict(cat="model_checking", ref="6/C01",
+        technique="TLA+ spec Emit.tla: the emit_core::emit pipeline (snapshot ctxt, resolve extent, evaluate effective filter with consulted leaves recorded, dispatch per destination) as a state machine over filter / destination combinator trees, checked by TLC against the logical definitions; every finished configuration replayed on the real combinators, erased and statically typed",
+        text="TLC runs the pipeline over every configuration of three scenario products (event shapes x leaf predicates x entries; filter trees; destination trees) and checks ExactlyOnce, WrappersTransparent, DirectBypass and ShortCircuit; each configuration is executed on the real code through seven call forms (Runtime::emit, Emitter::emit on a Runtime, emit_core::emit, emit! with/without when:, emit!(evt:) with/without when:, Emitter::emit directly on the tree), once with every node erased (Box<dyn ErasedFilter/ErasedEmitter>) and for 349 stamped shapes statically typed; per-leaf delivery count, delivered properties in order, delivered extent, consultation order of the effective filter (the other filter never consulted) and the absence of ctxt/clock reads on the direct path are compared, and the erased and generic logs must be identical.",
+        note="11 leaf predicates stand for arbitrary filters; scenario products rather than the full product of all dimensions; tree depth <=2 exhaustive (quick), restricted depth 3 (thorough); order in which an And destination reaches its sides and the number of clock reads are drift only; WrapFn/Runtime(t)/Assert nodes and blocking_flush not modelled; trusts TLC and the harness interpreter"),
+    "C02": dict(cat="model_checking", ref="6/C02",
+        technique="TLA+ spec Props.tla: level-B transcriptions of every for_each/get/is_unique (And, Dedup, default get, break contract, macro-props lookup) checked by TLC against Enum/First; every tree replayed on the real types (erased and statically typed); macro call sites are TLC-enumerated generated Rust programs compiled into the harness",
+        text="TLC checks GetIsFirst, DedupOnceFirst, UniqueClaimSound, BreakStops and EnumIsSpec over pair/array/slice/BTreeMap/HashMap/Empty/Option/&/Box/Arc/dyn ErasedProps/dedup()/as_map()/and_props trees, the ThreadLocalCtxt snapshot and the Extent and SpanCtxt views, keys \"\", a, b, e-acute; each tree is built on the real types and for_each (full and breaking at every n), get by &str and Str, pull, is_unique and dedup() are compared (unordered collections: any admissible permutation, get must agree with the observed one); macro call sites (<=3 identifiers incl. r#type x plain / #[emit::key] renamed smaller, larger, non-identifier, empty / #[emit::optional] Some, None / #[cfg(any())], #[cfg(all())], distinct final names) are generated as real emit::props!/evt!/emit! programs checking enumeration, lookup of every final key, erased and as_map views and the rendered message; the lookup as originally found must violate GetIsFirst on every run.",
+        note="order inside HashMap, ctxt, dedup and macro collections unspecified (any permutation accepted); std map lookup trusted; Span and Metric event property views not modelled; ThreadLocalCtxt covered for a single pushed frame (stacking belongs to C03); thorough tier uses TLC simulation for deep trees"),
+})
+
 NOT_YET = {}
 
 
